@@ -74,6 +74,8 @@ fn main() {
                 "c11" => props::bail::job_c11(outdir, tier, seed),
                 "c13" => props::enc::job_c13(outdir, tier, seed),
                 "c03" => props::whatwg::job_c03(outdir, tier, seed),
+                "c18" => props::threads::job_c18(outdir, tier, seed),
+                "c18s" => props::threads::job_c18_sched(outdir, tier, seed),
                 "c09" => props::lat::job_c09(outdir, tier, seed),
                 "c14" => props::tok::job_c14(outdir, tier, seed),
                 "c16" => props::tok::job_c16(outdir, tier, seed),
